@@ -10,6 +10,9 @@ import Proofs.C06.KeyText
 import Proofs.C06.SubString
 import Proofs.C06.RefEquiv
 import Proofs.C06.Slip132
+import Proofs.C06.ScriptAddr
+import Proofs.C06.KeyTextConv
+import Proofs.C06.ThreeErr
 /-!
 # C06 — text encodings and addresses round-trip and accept exactly what the specs accept
 
@@ -155,10 +158,36 @@ theorem bech32_accepts_only_what_reference_accepts (s hrp data : List Nat) (spec
 
 example : specConst .bech32 = Gen.Bech32.BECH32_1_CONST ∧ specConst .bech32m = Gen.Bech32.BECH32_M_CONST := by decide
 
-/- NOT proved (`bch_four_errors_partial` would be its name): BIP173's full guarantee — any error pattern
-   touching 3 or 4 characters of a string of at most 90 characters is detected. One and two substitutions
-   (and adjacent transpositions) are theorems above; three and four need the BCH bound over GF(1024) (not in
-   Mathlib) or an enumeration of about 2·10¹² residue combinations, out of reach of `decide`. -/
+/-- T3 (three substitutions, value level): two value sequences of ANY length that differ in up to three positions,
+    the first and the last at most 88 positions apart (only `v1 ≠ v1'` is asked, so one and two changes are
+    included), never share a checksum. 88 covers every pair of positions after the separator of a 90-character
+    string. Table: the 2728 residues x^b·d (1 ≤ b ≤ 88, 1 ≤ d ≤ 31) have pairwise different parts above the low
+    five bits (`decide +kernel`), so x^b·d1 + x^c·d2 is never a single value d3. -/
+theorem three_substitutions_detected (pre mid1 mid2 post : List Nat) (v1 v1' v2 v2' v3 v3' m : Nat)
+    (hm1 : ∀ x ∈ mid1, x < 2 ^ 30) (hm2 : ∀ x ∈ mid2, x < 2 ^ 30) (hpost : ∀ x ∈ post, x < 2 ^ 30)
+    (h1 : v1 < 32) (h1' : v1' < 32) (h2 : v2 < 32) (h2' : v2' < 32) (h3 : v3 < 32) (h3' : v3' < 32)
+    (hne : v1 ≠ v1') (hw : mid1.length + mid2.length + 2 ≤ 88)
+    (h : Bech32.polymod (pre ++ v1 :: (mid1 ++ v2 :: (mid2 ++ v3 :: post))) = m) :
+    Bech32.polymod (pre ++ v1' :: (mid1 ++ v2' :: (mid2 ++ v3' :: post))) ≠ m := by
+  intro h'
+  exact three_substitutions pre mid1 mid2 post v1 v1' v2 v2' v3 v3' hm1 hm2 hpost h1 h1' h2 h2' h3 h3' hne hw
+    (h.trans h'.symm)
+
+/-- T3 at the string level, three characters (explicit constant): changing up to three characters after the
+    separator of an accepted string, first to last at most 88 apart, gives a string the decoder refuses. -/
+theorem three_substitutions_refused (pre a mid1 mid2 b : List Nat) (x x' y y' z z' m : Nat)
+    (h49 : 49 ∉ a ++ x :: (mid1 ++ y :: (mid2 ++ z :: b))) (hx' : x' ≠ 49) (hy' : y' ≠ 49) (hz' : z' ≠ 49)
+    (hne : lowerC x ≠ lowerC x') (hw : mid1.length + mid2.length + 2 ≤ 88) (r : List Nat × List Nat)
+    (h1 : Bech32.decode (pre ++ 49 :: (a ++ x :: (mid1 ++ y :: (mid2 ++ z :: b)))) (some m) = .ok r) :
+    ∀ r', Bech32.decode (pre ++ 49 :: (a ++ x' :: (mid1 ++ y' :: (mid2 ++ z' :: b)))) (some m) ≠ .ok r' :=
+  Bech32.three_substitutions_refused pre a mid1 mid2 b x x' y y' z z' m h49 hx' hy' hz' hne hw r h1
+
+/- NOT proved (`bch_four_errors_partial` would be its name): BIP173's full guarantee — any error pattern touching
+   FOUR characters of a string of at most 90 characters is detected. One, two (window 1022) and three (window 88)
+   substitutions and adjacent transpositions are theorems above; four needs the BCH bound over GF(1024) (not in
+   Mathlib) or the disjointness of about 3.7·10⁶ pair sums x^b·d1 + x^c·d2 from as many x^e·d3 + d4, out of reach
+   of `decide`. Also not proved: three substitutions with the constant read off a CHANGED version character
+   (`m` None), and substitutions in the human-readable part or of the separator. -/
 
 -- non-vacuity: a real checksum ("a12uel5l" of BIP173: hrp "a", no data), and what the theorems say about it
 example : Bech32.polymod (hrpExpand [97] ++ [10, 28, 25, 31, 20, 31]) = 1 := by decide
@@ -293,6 +322,59 @@ theorem base58_address_roundtrip (H : Bytes → Bytes) (hH : ∀ x, 4 ≤ (H x).
 
 example : Address.programOk 0 20 = true ∧ Address.programOk 0 21 = false ∧ Address.programOk 16 40 = true := by decide
 
+open Btc.Address Gen.Net in
+/-- T5 (reader dispatch): a p2pkh / p2sh address of any network of the table never passes `is_segwit_prefixed`
+    (its first character — `1`, `3`, `m`/`n`, `2` for the generated version bytes: leading Base58 digit of
+    version ‖ 24 bytes — starts no network's hrp, in either case), so `from_address` reads it with the Base58 reader. -/
+theorem base58_address_not_segwit_prefixed (H : Bytes → Bytes) (hH : ∀ x, 4 ≤ (H x).length) (n : Network)
+    (hn : n ∈ NETWORKS) (pre : List Nat) (hp : pre = n.p2pkh ∨ pre = n.p2sh) (h160 : Bytes) (hl : h160.length = 20) :
+    isSegwitPrefixed (Base58.encode H (ofNats pre ++ h160)) = false :=
+  b58_not_prefixed H hH n hn pre hp h160 hl
+
+open Btc.Address Gen.Net in
+/-- T5 (script → address → script): for every network name the lookup resolves and EVERY script that
+    `type_and_payload` gives an address-bearing type — p2pkh, p2sh, p2wpkh, p2wsh, p2tr and every future witness
+    version 1..16 with every program of 2..40 bytes — `script_pub_key.address` writes an address that
+    `ScriptPubKey.from_address` reads back to exactly the same script bytes, on the first network `m` sharing the
+    prefix, which has the same main/test type. (Model functions; tied to btclib by the `spk` streams.) -/
+theorem script_address_roundtrip (H : Bytes → Bytes) (hH : ∀ x, 4 ≤ (H x).length) (nm : String) (net : Network)
+    (hnm : networkNamed nm = some net) (s : Bytes) (kind : Kind) (payload : Bytes)
+    (ht : typeAndPayload s = (kind, payload)) (hk : kind ≠ .other) :
+    ∃ a m, address H s nm = .ok a ∧ fromAddress H a = .ok (s, m.name) ∧ m ∈ NETWORKS ∧ m.isMain = net.isMain :=
+  Address.script_address_roundtrip H hH nm net hnm s kind payload ht hk
+
+open Btc.Address Gen.Net in
+/-- T5 (address → script → address): whatever `ScriptPubKey.from_address` accepts, it answers a script of an
+    address-bearing type and the name of a network of the table, and `address` of that script on that network is
+    the accepted string itself, up to surrounding blanks and — for segwit addresses — the case of the whole string:
+    no second spelling of an address. -/
+theorem address_script_roundtrip (H : Bytes → Bytes) (a : List Nat) (s : Bytes) (nm : String)
+    (h : fromAddress H a = .ok (s, nm)) :
+    ∃ m, m ∈ NETWORKS ∧ m.name = nm ∧ (∃ kind payload, typeAndPayload s = (kind, payload) ∧ kind ≠ .other) ∧
+      ∀ nm', networkNamed nm' = some m →
+        address H s nm' = .ok (if isSegwitPrefixed a then Bech32.lower (strip a) else strip a) :=
+  Address.address_script_roundtrip H a s nm h
+
+open Btc.Address Gen.Net in
+/-- T5 (segwit / Base58 address, encode ∘ decode): what `witness_from_address` / `h160_from_address` read is
+    re-written by `address_from_witness` / `address_from_h160`, on the network answered, to the string read
+    (blanks removed; lower-cased for segwit); the version and program read are admissible, the hash has 20 bytes. -/
+theorem address_encode_decode (H : Bytes → Bytes) (a : List Nat) (nm : String) :
+    (∀ ver prog, witnessFromAddress a = .ok (ver, prog, nm) →
+      ∃ m, m ∈ NETWORKS ∧ m.name = nm ∧ programOk ver prog.length = true ∧
+        addressFromWitness (ver : Int) prog m.hrp = .ok (Bech32.lower (strip a))) ∧
+    (∀ kind h160, h160FromAddress H a = .ok (kind, h160, nm) →
+      ∃ m, m ∈ NETWORKS ∧ m.name = nm ∧ (kind = .p2pkh ∨ kind = .p2sh) ∧ h160.length = 20 ∧
+        addressFromH160 H kind h160 m = .ok (strip a)) :=
+  ⟨fun ver prog h => witness_encode_decode a ver prog nm h, fun kind h160 h => h160_encode_decode H a kind h160 nm h⟩
+
+-- non-vacuity: the scripts the theorems speak of, and a witness-version-16 two-byte program
+example : Address.typeAndPayload ([0x00, 0x14] ++ List.replicate 20 7) = (.p2wpkh, List.replicate 20 7) := by decide
+example : Address.typeAndPayload [0x60, 0x02, 1, 2] = (.witnessUnknown, [1, 2]) := by decide
+example : Address.typeAndPayload ([0x76, 0xa9, 0x14] ++ List.replicate 20 7 ++ [0x88, 0xac]) =
+    (.p2pkh, List.replicate 20 7) := by decide
+example : Address.witnessScript 16 [1, 2] = [0x60, 0x02, 1, 2] := by decide
+
 /-! ## WIF and extended-key text (Base58Check envelope around fixed payload layouts) -/
 open Btc.KeyText Btc.Address Gen.Net in
 /-- T6 (WIF layout, both directions): prefix ‖ key ‖ optional 0x01 splits into (key, compressed flag), and a
@@ -320,6 +402,53 @@ theorem xkey_text_roundtrip (H : Bytes → Bytes) (hH : ∀ x, (H x).length = 32
     KeyText.xkeyDecode H (KeyText.xkeyEncode H k) = .ok k ∧
       (KeyText.xkeyEncode H k).length ≤ Gen.Base58.MAX_LENGTH :=
   KeyText.xkey_roundtrip H hH k hv
+
+open Btc.KeyText Btc.Address Gen.Net in
+/-- T6 (WIF acceptance ⇔): `_prv_keyinfo_from_wif` answers `(q, network, compressed)` exactly on the strings
+    that, surrounding blanks removed, ARE the WIF of `q` with that flag on a network `m` that is the first of the
+    table carrying its WIF prefix (its name is the one answered), with `0 < q < n`, `q` fitting the key size and the
+    text within the Base58Check length cap: no other version byte, flag byte, padding or size is read. -/
+theorem wif_accepts_iff (H : Bytes → Bytes) (hH : ∀ x, 4 ≤ (H x).length) (nSize n : Nat) (s : List Nat)
+    (q : Nat) (nm : String) (c : Bool) :
+    wifDecode H nSize n s = .ok (q, nm, c) ↔
+      ∃ m, networkFrom (·.wif) m.wif = some m ∧ m.name = nm ∧ strip s = wifEncode H m nSize q c ∧
+        0 < q ∧ q < n ∧ q < 256 ^ nSize ∧ (strip s).length ≤ Gen.Base58.MAX_LENGTH :=
+  KeyText.wif_accepts_iff H hH nSize n s q nm c
+
+open Btc.KeyText Btc.Address in
+/-- T6 (extended-key text acceptance ⇔): `BIP32KeyData.b58decode` without / with validity checks answers the
+    record `k` exactly on the strings that, blanks removed, are the Base58Check text of the 78-byte serialization
+    of the well-formed `k` (C05's lawful codec) / and `k` passes `assert_valid`'s rules. -/
+theorem xkey_text_accepts_iff (H : Bytes → Bytes) (hH : ∀ x, (H x).length = 32) (n : Nat) (isX : Nat → Bool)
+    (s : List Nat) (k : Wire.XKey) :
+    (xkeyDecode H s = .ok k ↔ Wire.xkey.valid k ∧ strip s = xkeyEncode H k) ∧
+    (xkeyDecodeChecked H n isX s = .ok k ↔
+      Wire.xkey.valid k ∧ strip s = xkeyEncode H k ∧ xkeySemValid n isX k = true) :=
+  ⟨xkey_accepts_iff H hH s k, xkey_checked_accepts_iff H hH n isX s k⟩
+
+open Btc.KeyText Btc.Address Gen.Net in
+/-- T6 (what `assert_valid` asks, over the generated version tables): depth 0 forces a zero parent fingerprint and
+    index 0; a version of the private set wants key prefix 0x00 and `0 < q < n`, a version of the public set wants
+    prefix 0x02 / 0x03 and an x-coordinate (`isX`, a parameter), any other version is refused; the two sets are
+    disjoint, are the private / public halves of the SLIP132 table, and hold 4-byte versions only. -/
+theorem xkey_validity_rules (n : Nat) (isX : Nat → Bool) (k : Wire.XKey) :
+    (xkeySemValid n isX k = true ↔
+      (k.depth = 0 → k.parentFp = [0, 0, 0, 0] ∧ k.index = 0) ∧
+      ((toNats k.version ∈ XPRV_ALL ∧ k.key.head? = some 0 ∧ 0 < ofBE (k.key.drop 1) ∧ ofBE (k.key.drop 1) < n) ∨
+       (toNats k.version ∈ XPUB_ALL ∧ (k.key.head? = some 2 ∨ k.key.head? = some 3) ∧
+         isX (ofBE (k.key.drop 1)) = true))) ∧
+    (∀ v ∈ XPRV_ALL, v ∉ XPUB_ALL) ∧
+    (∀ r ∈ SLIP132, (r.2.2.1 = true → r.1 ∈ XPRV_ALL) ∧ (r.2.2.1 = false → r.1 ∈ XPUB_ALL)) ∧
+    (∀ v ∈ XPRV_ALL ++ XPUB_ALL, v.length = 4) :=
+  ⟨xkeySemValid_iff n isX k, version_sets.1, version_sets.2.1, version_sets.2.2⟩
+
+-- non-vacuity: a root xprv record with key 0x00 ‖ 1 passes the rules for n = 7; with a non-zero index it does not
+example : KeyText.xkeySemValid 7 (fun _ => true)
+    ⟨[4, 136, 173, 228], 0, [0, 0, 0, 0], 0, List.replicate 32 0, 0 :: (List.replicate 31 0 ++ [1])⟩ = true := by
+  decide +kernel
+example : KeyText.xkeySemValid 7 (fun _ => true)
+    ⟨[4, 136, 173, 228], 0, [0, 0, 0, 0], 1, List.replicate 32 0, 0 :: (List.replicate 31 0 ++ [1])⟩ = false := by
+  decide +kernel
 
 /-! ## SLIP132 version ↔ script type (tables generated from `network.py` and `slip132.py`) -/
 open Btc.Slip132 Btc.Address Gen.Net in
